@@ -4,6 +4,7 @@ package sigrpc
 import (
 	"context"
 	"errors"
+	"fmt"
 	"github.com/aperturerobotics/bifrost/crypto"
 	"github.com/aperturerobotics/bifrost/link"
 	"io"
@@ -116,7 +117,38 @@ func (s *srvSession) Close() error     { s.cancel(); return nil }
 func (s *srvSession) SendAndClose(m *signaling.SessionResponse) error {
 	return s.Send(m)
 }
+
+// wireReq / wireResp pass a message through the generated wire codec, as a real transport between client and relay
+// does: what one side receives is the decoding of what the other side encoded.
+func wireReq(r *signaling.SessionRequest) (*signaling.SessionRequest, error) {
+	b, err := r.MarshalVT()
+	if err != nil {
+		return nil, err
+	}
+	o := &signaling.SessionRequest{}
+	if err := o.UnmarshalVT(b); err != nil {
+		return nil, err
+	}
+	return o, nil
+}
+
+func wireResp(r *signaling.SessionResponse) (*signaling.SessionResponse, error) {
+	b, err := r.MarshalVT()
+	if err != nil {
+		return nil, err
+	}
+	o := &signaling.SessionResponse{}
+	if err := o.UnmarshalVT(b); err != nil {
+		return nil, err
+	}
+	return o, nil
+}
+
 func (s *srvSession) Send(m *signaling.SessionResponse) error {
+	m, werr := wireResp(m)
+	if werr != nil {
+		return werr
+	}
 	s.mu.Lock()
 	g := s.gate
 	s.mu.Unlock()
@@ -164,7 +196,7 @@ func (s *srvSession) Recv() (*signaling.SessionRequest, error) {
 		if !ok {
 			return nil, io.EOF
 		}
-		return r, nil
+		return wireReq(r)
 	case <-s.ctx.Done():
 		return nil, context.Canceled
 	}
@@ -266,6 +298,21 @@ type srvListen struct {
 	events []event
 	done   chan struct{}
 	retErr error
+	// gate, if set, holds the relay's Send on this stream (a listener that reads slowly) until it is closed
+	gate chan struct{}
+}
+
+// setGate installs (or with nil removes) the Send gate.
+func (s *srvListen) setGate(g chan struct{}) {
+	s.mu.Lock()
+	s.gate = g
+	s.mu.Unlock()
+}
+
+func (s *srvListen) gated() bool {
+	s.mu.Lock()
+	defer s.mu.Unlock()
+	return s.gate != nil
 }
 
 func newSrvListen(who int) *srvListen {
@@ -280,6 +327,26 @@ func (s *srvListen) CloseSend() error                               { return nil
 func (s *srvListen) Close() error                                   { s.cancel(); return nil }
 func (s *srvListen) SendAndClose(m *signaling.ListenResponse) error { return s.Send(m) }
 func (s *srvListen) Send(m *signaling.ListenResponse) error {
+	if b, err := m.MarshalVT(); err != nil {
+		return err
+	} else {
+		// through the wire codec, as on a real transport
+		w := &signaling.ListenResponse{}
+		if err := w.UnmarshalVT(b); err != nil {
+			return err
+		}
+		m = w
+	}
+	s.mu.Lock()
+	g := s.gate
+	s.mu.Unlock()
+	if g != nil {
+		select {
+		case <-g:
+		case <-s.ctx.Done():
+			return context.Canceled
+		}
+	}
 	if s.ctx.Err() != nil {
 		return context.Canceled
 	}
@@ -318,9 +385,21 @@ func (s *srvListen) startRegistered(srv *signaling_rpc_server.Server) (ok bool) 
 	id := gen.PeerID(s.who).String()
 	pl, pn := srv.VerifListenState(id)
 	s.start(srv)
+	if os.Getenv("VERIF_DEBUG") != "" {
+		defer func() {
+			l, n := srv.VerifListenState(id)
+			fmt.Fprintf(os.Stderr, "listen startRegistered: before (%v,%d) after (%v,%d) ok=%v\n", pl, pn, l, n, ok)
+		}()
+	}
 	return waitFor(8*time.Second, func() bool {
 		l, n := srv.VerifListenState(id)
-		return l && (!pl || n != pn)
+		// operations are applied one at a time, so while a call was registered before only the new call's
+		// registration can change the nonce; without a registered call the new one shows up as listening
+		if pl {
+			// (the replaced call's exit may change the state once more; any change shows the new call registered)
+			return n != pn || !l
+		}
+		return l || n != pn
 	})
 }
 
